@@ -17,7 +17,7 @@ def setup():
 
 
 def gen_cases(prop, tier, seed):
-    reps = {"quick": 3, "thorough": 24}[tier]
+    reps = {"quick": 3, "thorough": 80}[tier]
     cases = []
     for name, e in POOL.items():
         r = max(1, reps // e.slow)
